@@ -1081,6 +1081,12 @@ impl StreamingQueueCompressor {
         let output_path = output_path.as_ref();
         let archive_path = output_path.to_string_lossy().to_string();
 
+        // Without workers nothing would ever be pulled from the queue: pushes would pile up (or
+        // block) and finalize would write an archive that lists contigs but holds no data.
+        if config.num_threads == 0 {
+            anyhow::bail!("num_threads must be at least 1");
+        }
+
         if config.verbosity > 0 {
             eprintln!("Initializing streaming compressor...");
             eprintln!(
